@@ -1,8 +1,11 @@
 #!/bin/sh
 # Runs every claimed property's thorough tier, one after the other (for `vp run`).
 cd "$(dirname "$0")/.."
+# in a `vp run --with-repo` the repository snapshot is used, so that seeded patches applied to /repo meanwhile do not leak in
+if [ -n "$VP_RUN_REPO" ]; then export VERIF_REPO="$VP_RUN_REPO"; fi
 ./setup.sh
-for p in $(python3 -c "import json;print(' '.join(sorted(json.load(open('checks.json')))))"); do
+PROPS="${VERIF_PROPS:-$(python3 -c "import json;print(' '.join(sorted(json.load(open('checks.json')))))")}"
+for p in $PROPS; do
   echo "=== $p thorough seed=${VERIF_SEED:-1}"
   ./check $p thorough 2>&1 | grep -v "^  violation" | cut -c1-600 | tail -6
   echo "exit=$?"
